@@ -31,6 +31,10 @@ def check(prog, rep):
     rep.not_decided = ["behaviour of the file under SIGKILL / fsync (trusted)", "peewee internals"]
     check_commit_discipline(prog, rep)
     check_no_rollback(prog, rep)
+    # a statement that fails half way (a constraint the interface does not have) leaves rows pending that nothing counted
+    from ..rules_store import ddl_facts
+
+    ddl_facts(prog, rep)
 
     # D2: auto-committing store opens no transaction
     rep.rule("AUTOCOMMIT", "no PeeweeStorage method (nor module-level database construction) uses atomic/transaction/manual_commit/savepoint/begin/rollback or autocommit=False")
